@@ -23,6 +23,26 @@ PROGRAMS = {
     # larger than the library's initial buffer (the code moves while asmline is running)
     "big": "mov rcx, 0x1122334455667788\n" * 700 + "mov rax, 0x1234\nret\n",
 }
+LINE_POOL = ["mov rax, 0x1122334455667788", "add rax, rcx", "", "; comment", "mov [rdi+0x10], rax", "lea r15, [rax+rcx*2+0x7]",
+             "xor r8, r9", "nop", "lbl:", "mov ecx, 0x12345678"]
+
+
+def prog_text(name):
+    """Programs by name; 'lines-N' is a program of exactly N lines (instructions, blank, comment and label lines in a fixed
+    rotation, 'ret' last): the number of lines is a dimension of its own for a tool that reads its input line by line."""
+    if name.startswith("lines-"):
+        n = int(name[6:])
+        return "".join(LINE_POOL[(7 * i) % len(LINE_POOL)] + "\n" for i in range(n - 1)) + "ret\n"
+    return PROGRAMS[name]
+
+
+def line_counts(tier):
+    ns = list(range(1, 261)) + [511, 512, 513, 1023, 1024, 1025, 2048, 4096]
+    if tier == "thorough":
+        ns += list(range(261, 600)) + [8192, 16384]
+    return ns
+
+
 # flag -> setter ops (as documented in asmline --help), and the option dimension(s) it touches
 FLAGS = {
     "-n": ("a1", "all"), "-t": ("a0", "all"), "-s": ("a2", "mov"),
@@ -194,7 +214,7 @@ def run(tier, seed):
                 "-c N -p, -c N -P f, -b N, -b N -p) x source (FILE, stdin); oracle: the same program through the library API with "
                 "the setter calls each flag documents: binary files = library bytes, -p hex tokens = the same bytes (chunk rows of "
                 "N bytes with -c), -b = library count, -r = rax of the code, exit status 0 iff assembly and output succeeded; plus "
-                "unwritable -P / -o targets. quick: every flag set x 3 outputs + every output x 3 flag sets; thorough: full product. "
+                "programs of every line count 1..260 (thorough ..600) and around 512, 1024, 2048, 4096 through -P and -b from both sources; unwritable -P / -o targets. quick: every flag set x 3 outputs + every output x 3 flag sets; thorough: full product. "
                 "distinct_nontrivial = distinct invocations")
     try:
         fsets = flag_sets(tier)
@@ -212,6 +232,13 @@ def run(tier, seed):
                     combos += [(pn, pt, fs, o, s) for fs in fsets for o in core_out if pn in ("modes", "rejected", "ret42")]
                     combos += [(pn, pt, fs, o, s) for fs in core_fs[:1 if pn == "big" else 3] for o in outs]
             combos = list(dict.fromkeys(combos))
+        # every line count: the binary output and the break count from stdin and from FILE
+        for n in line_counts(tier):
+            pn = "lines-%d" % n
+            for s_ in ("stdin", "file"):
+                combos.append((pn, prog_text(pn), (), ("P",), s_))
+                if n % 8 == 0 or n < 70:
+                    combos.append((pn, prog_text(pn), (), ("b", 16), s_))
         # `ret` alone leaves rax undefined: not a program whose -r output is determined
         combos = [c for c in combos if not (c[0] == "one" and "r" in c[3])]
         libs = hexec.run([lib_expect(pt, fs, o) for pn, pt, fs, o, s in combos], dangerous=True)
@@ -269,7 +296,7 @@ def replay(r, verbose=False):
         o = tuple(r["out"])
         if isinstance(o[0], str) and o[0].startswith("unwritable"):
             return True
-        pt = PROGRAMS[r["program"]]
+        pt = prog_text(r["program"])
         lib = hexec.run([lib_expect(pt, tuple(r["flags"]), o)], dangerous=True, nproc=1)[0]
         rc, stdout, data = invoke(exe, pt, tuple(r["flags"]), o, r["source"], tmp, 0)
         disc = judge(o, r["source"], stdout, rc, data, lib)
